@@ -114,9 +114,9 @@ def XCall.movedSubtree (f : Forest) : XCall → List Nat
   | _ => []
 
 /-- The constructors inside the domain of `C05_frame_general`: append, prepend, insert_after, insert_before, detach,
-    remove, replace, element_wrap, element_unwrap, clone_node, map insert, map remove, text_content_mut().set(), the four value setters, node creation and
-    `set_text_consolidation`.  LEFT OUT (not proved in the general `get?`-of-the-node form): any_append, append of an
-    entry node, clone_with_prefixes, map clear,
+    remove, replace, element_wrap, element_unwrap, clone_node, clone_with_prefixes, map insert, map remove,
+    text_content_mut().set(), the four value setters, node creation and `set_text_consolidation`.  LEFT OUT (not
+    proved in the general `get?`-of-the-node form): any_append, append of an entry node, map clear,
     remove_insignificant_whitespace, create_missing_prefixes, deduplicate_namespaces. -/
 def XCall.framed : XCall → Bool
   | .call (.append _ _) | .call (.prepend _ _) | .call (.insertAfter _ _) | .call (.insertBefore _ _)
@@ -126,6 +126,7 @@ def XCall.framed : XCall → Bool
   | .call (.setElementName _ _) | .call (.setText _ _) | .call (.setComment _ _) | .call (.setPiData _ _) => true
   | .newNode _ => true
   | .setConsolidation _ => true
+  | .cloneWithPrefixes _ _ => true
   | _ => false
 
 end Forest
